@@ -2,7 +2,12 @@
 import noise
 
 
-PAYLOADS = ["u8", "i64", "String", "Option<u16>", "P", "Seven", "Vec<u8>", "(u8, bool)", "char", "bool"]
+PAYLOADS = ["u8", "i64", "String", "Option<u16>", "P", "Seven", "Vec<u8>", "(u8, bool)", "char", "bool", "Box<u8>", "&'static str",
+            "()", "[u8; 3]", "std::rc::Rc<u8>", "core::marker::PhantomData<u8>", "Option<Box<Seven>>"]
+
+# variant identifiers that collide with prelude items or with names the generated code uses internally
+TRICKY_IDENTS = ["Some", "None", "Ok", "Err", "Option", "Default", "Iterator", "Clone", "Self_", "Idx", "BackIdx", "Marker", "Get",
+                 "Len", "Next", "Nth", "T", "U", "K", "Item", "PhantomData", "Box", "Vec", "String"]
 
 PLACEMENTS = ["none", "first", "middle", "last", "adjacent", "alternating", "all", "random"]
 
@@ -45,6 +50,10 @@ def gen_enum(rng, idx, n_enabled, placement, generics, kinds, robust=False):
     name = "E%d" % idx
     mask = disabled_mask(rng, placement, n_enabled)
     variants = []
+    tricky = None
+    if not robust and generics == "none" and len(mask) <= 20 and rng.random() < 0.25:
+        tricky = list(TRICKY_IDENTS)
+        rng.shuffle(tricky)
     for vi, dis in enumerate(mask):
         kind = rng.choice(kinds)
         nf = 0 if kind == "unit" else rng.choice([1, 1, 2, 3])
@@ -64,7 +73,10 @@ def gen_enum(rng, idx, n_enabled, placement, generics, kinds, robust=False):
         if not dis and not robust and rng.random() < 0.15:
             extra = rng.choice(['#[strum(serialize = "x%d")]' % vi, '#[strum(to_string = "t%d")]' % vi,
                                 '#[strum(message = "m")]', '#[strum(props(a = "b"))]'])
-        variants.append(dict(ident="V%d" % vi, kind=kind, tys=tys, disabled=dis, extra=extra,
+        ident = "V%d" % vi
+        if tricky and vi < len(tricky):
+            ident = tricky[vi]
+        variants.append(dict(ident=ident, kind=kind, tys=tys, disabled=dis, extra=extra,
                              noise=[] if robust or len(mask) > 300 else noise.variant_noise(rng, 0.25, True, extra)))
     # every type parameter must be used by some variant (rustc E0392)
     want = {"none": [], "T": ["T"], "TW": ["T"], "TK": ["T"], "TU": ["T", "U"]}[generics]
@@ -79,7 +91,7 @@ def gen_enum(rng, idx, n_enabled, placement, generics, kinds, robust=False):
                 placed = True
                 break
         if not placed:
-            variants.append(dict(ident="V%d" % len(variants), kind="tuple", tys=[g], disabled=True, extra=""))
+            variants.append(dict(ident="W%d" % len(variants), kind="tuple", tys=[g], disabled=True, extra=""))
     return dict(name=name, generics=generics, variants=variants, n=sum(1 for v in variants if not v["disabled"]),
                 placement=placement)
 
@@ -91,6 +103,16 @@ GEN_DECL = {
     "TK": ("<T: Default, const K: usize>", "<{0}, 3>"),
     "TU": ("<T: Default, U: Default>", "<{0}, {1}>"),
 }
+
+
+INTERNAL_FIELD_NAMES = ["idx", "back_idx", "marker"]
+
+
+def fname(v, i):
+    # variants with an even number in their name use field names that the generated iterator struct also uses
+    if v["ident"].startswith("V") and v["ident"][1:].isdigit() and int(v["ident"][1:]) % 4 == 2 and i < 3:
+        return INTERNAL_FIELD_NAMES[i]
+    return "f%d" % i
 
 
 def render_variant(v):
@@ -110,7 +132,7 @@ def render_variant(v):
     elif v["kind"] == "tuple":
         body = "%s(%s)" % (v["ident"], ", ".join(v["tys"]))
     else:
-        body = "%s { %s }" % (v["ident"], ", ".join("f%d: %s" % (i, t) for i, t in enumerate(v["tys"])))
+        body = "%s { %s }" % (v["ident"], ", ".join("%s: %s" % (fname(v, i), t) for i, t in enumerate(v["tys"])))
     return "%s    %s,\n" % (attrs, body)
 
 
@@ -120,7 +142,7 @@ def render_value(e, v, inst):
         return path
     if v["kind"] == "tuple":
         return "%s(%s)" % (path, ", ".join("Default::default()" for _ in v["tys"]))
-    return "%s { %s }" % (path, ", ".join("f%d: Default::default()" % i for i, _ in enumerate(v["tys"])))
+    return "%s { %s }" % (path, ", ".join("%s: Default::default()" % fname(v, i) for i, _ in enumerate(v["tys"])))
 
 
 def describe(e):
